@@ -473,7 +473,18 @@ func c09Exec(r *vRun, s *c09State, client int, writers map[int]*c09Writer, chans
 		// so the rest of the run is attributed to that finding
 		snap := s.rec.Snapshot()
 		s.mu.Lock()
+		// (as in the C04 engine: every channel of the index groups the request touches
+		// counts, and so does a bound ON the sample-free start of such a domain)
+		groupKeys := map[uint32]bool{}
 		for _, k := range op.Keys {
+			for _, c := range r.sch.Chans {
+				if c.Index == r.chans[k].Index {
+					groupKeys[c.Key] = true
+				}
+			}
+			groupKeys[k] = true
+		}
+		for k := range groupKeys {
 			var have []int64
 			for _, h := range snap {
 				if in := h.Input.(hist.TSOp); in.Ch == k && in.Kind == "add" {
@@ -481,15 +492,27 @@ func c09Exec(r *vRun, s *c09State, client int, writers map[int]*c09Writer, chans
 				}
 			}
 			sort.Slice(have, func(i, j int) bool { return have[i] < have[j] })
+			// samples that a recorded delete has removed no longer count
+			deleted := func(ts int64) bool {
+				for _, h := range snap {
+					if in := h.Input.(hist.TSOp); in.Ch == k && in.Kind == "del" && ts >= in.A && ts < in.B {
+						return true
+					}
+				}
+				return false
+			}
 			for _, d := range r.layout(k) {
 				first := int64(-1)
 				for _, ts := range have {
-					if ts >= d.Start && ts < d.End {
+					if ts >= d.Start && ts < d.End && !deleted(ts) {
 						first = ts
 						break
 					}
 				}
-				if first > d.Start && ((d.Start < op.A && op.A < d.End) || (d.Start < op.B && op.B < d.End)) {
+				gap := first > d.Start
+				inDomain := (d.Start < op.A && op.A < d.End) || (d.Start < op.B && op.B < d.End)
+				inGap := gap && ((d.Start <= op.A && op.A < first) || (d.Start <= op.B && op.B < first))
+				if gap && (inDomain || inGap) {
 					s.taint = "delete-cut-inside-domain-with-leading-gap"
 				}
 			}
